@@ -191,6 +191,36 @@ def stress_case(item):
                 r, _ = pj.run(['redo-ifchange', top], slots=slots)
             rs = [r]
             expect_files = [top, 'a']
+        elif kind == 'linksdir':
+            # only the `redo` program is installed (no redo-ifchange ... links on PATH): redo makes a private directory of links
+            # for its scripts and removes it again, also when the build fails
+            _, j, fail = item
+            import shutil
+            files, leaves = _fan_files(6)
+            if fail:
+                files['bad.do'] = 'exit 3\n'
+                files['all.do'] = files['all.do'].replace('redo-ifchange ', 'redo-ifchange bad ', 1)
+            pj = scen.Project(files, 'c09lnk')
+            bdir = pj.top + '.bin'
+            tdir = pj.top + '.tmp'
+            os.makedirs(bdir)
+            os.makedirs(tdir)
+            shutil.copy2(os.path.join(common.ensure_built(), 'redo'), os.path.join(bdir, 'redo'))
+            r, _ = pj.run([os.path.join(bdir, 'redo')] + (['-j%d' % j] if j > 1 else []) + ['all'], extra={'PATH': '/usr/bin:/bin', 'TMPDIR': tdir}, timeout=40)
+            left = os.listdir(tdir)
+            shutil.rmtree(bdir, ignore_errors=True)
+            shutil.rmtree(tdir, ignore_errors=True)
+            rs = [r] if not fail else []
+            expect_files = leaves + ['all'] if not fail else []
+            if fail:
+                for a in scen.crash_anoms(r, pj.logs_text(), kind):
+                    if a['cls'] == 'timeout':
+                        return dict(verdict='inconclusive', why=a['what'][:500], sample=sample)
+                    anoms.append(a)
+                if r.rc == 0:
+                    anoms.append(dict(cls='nonzero', key='zero-despite-failure:linksdir', what='a failing build exits 0'))
+            if left:
+                anoms.append(dict(cls='leftover', key='links-directory-left-behind:%s' % ('fail' if fail else 'ok'), what='TMPDIR still holds %s' % left[:3]))
         elif kind == 'brokenjs':
             # MAKEFLAGS names a jobserver whose descriptors are not open (make without "+" in front of the rule) or are no pipe:
             # redo has to say so and stop (or carry on serially) - not abort, not hang
@@ -308,6 +338,9 @@ def stress_items(tier, rnd):
                         items.append(('cheat', '%s%d' % (f, nsh), nsh + extra, own, rep))
                         for srep in range(2 if quick else 6):
                             items.append(('cheatstop', '%s%d' % (f, nsh), nsh + extra, own, rep * 10 + srep))
+    for j in (1, 3):
+        for fail in (False, True):
+            items.append(('linksdir', j, fail))
     for variant in ('closed', 'one-closed', 'garbage', 'negative', 'huge'):
         for cmd in ('redo', 'redo-ifchange'):
             items.append(('brokenjs', variant, cmd))
@@ -332,7 +365,7 @@ RULE = ('layer 1 (systematic): a select()-gate in one redo process lets the harn
         'step to a depth bound, each path replayed from scratch (k<=3 children, 1-3 job slots, plain and nested one level, with and '
         'without log capture, with a failing child; lock-wait configurations in which the gated process also asks for a target that another invocation is building, gives its slot away, and has to find one again with nothing running - the only place where the timed token wait and borrowing a slot occur). layer 2 (stress): fans of 16-120 instant/jittered leaves at -j2..16 with own '
         'and inherited jobserver, the same target spelled several times on one command line, a second invocation arriving while a '
-        'target is being built, crossed dependency orders (two shapes, 0-11 quick targets in front), 2-8 contending invocations, the followed job borrowing a slot after a lock hand-over (and starting a job on it), the same while redo processes are stopped and continued at random (SIGSTOP/SIGCONT descheduling injection), a process waiting more than a minute for a job token while two 75 s jobs hold every slot (thorough), a MAKEFLAGS that names a jobserver whose descriptors are closed / garbage (must end with an error, not abort or hang), random parallel histories. Oracle: no panic / '
+        'target is being built, crossed dependency orders (two shapes, 0-11 quick targets in front), 2-8 contending invocations, the followed job borrowing a slot after a lock hand-over (and starting a job on it), the same while redo processes are stopped and continued at random (SIGSTOP/SIGCONT descheduling injection), a process waiting more than a minute for a job token while two 75 s jobs hold every slot (thorough), only the `redo` program installed (private links directory made and removed), a MAKEFLAGS that names a jobserver whose descriptors are closed / garbage (must end with an error, not abort or hang), random parallel histories. Oracle: no panic / '
         'abort text or status in any redo process, no confirmed stuck state, exit 0 whenever all scripts succeed, tokens conserved '
         'on gate paths. Non-trivial: gate path with >=2 wake-ups, every stress build. Distinct: hash of scenario parameters and the '
         'delivered event sets.')
